@@ -55,12 +55,21 @@ func resolveLoad(v ssa.Value) ssa.Value {
 // assertsNilR / assertsNonNilR: like assertsNil but looking through the store/load idiom.
 func assertsNilR(c ssa.Value, truth bool, x ssa.Value) bool {
 	y, eq, ok := nilCompare(c)
-	return ok && eq == truth && (sameValue(y, x) || resolveLoad(y) == x)
+	return ok && eq == truth && (sameValue(y, x) || resolveLoad(y) == x || resolvedEq(resolveLoad(y), x))
 }
 
 func assertsNonNilR(c ssa.Value, truth bool, x ssa.Value) bool {
 	y, eq, ok := nilCompare(c)
-	return ok && eq != truth && (sameValue(y, x) || resolveLoad(y) == x)
+	return ok && eq != truth && (sameValue(y, x) || resolveLoad(y) == x || resolvedEq(resolveLoad(y), x))
+}
+
+type stickySite struct {
+	call     *ssa.Call
+	ev       ssa.Value
+	ck, cons string
+	direct   bool
+	nFail    int
+	bad      string
 }
 
 func errResult(c *ssa.Call) ssa.Value {
@@ -365,6 +374,7 @@ func runC03(w *World, r *Report, tier string) {
 		for _, k := range []string{"xmpp.(*Session).bind", "xmpp.(*Session).rfc3921Session", "xmpp.(*Session).EnableStreamManagement", "xmpp.(*Session).startTlsIfSupported"} {
 			fn := w.Func(k)
 			cnt := map[string]int{}
+			var sites []*stickySite
 			allInstrsH(fn, func(in ssa.Instruction) {
 				call, ok := in.(*ssa.Call)
 				if !ok {
@@ -391,54 +401,102 @@ func runC03(w *World, r *Report, tier string) {
 				cnt[ck]++
 				cons := fmt.Sprintf("%s→%s#%d#recorded", k, ck, cnt[ck])
 				nSticky++
-				if direct {
-					r.Ok("R2", cons, "assigned to s.err")
+				sites = append(sites, &stickySite{call: call, ev: ev, ck: ck, cons: cons, direct: direct})
+			})
+			isErrLoad := func(v ssa.Value) bool {
+				u, ok := v.(*ssa.UnOp)
+				if !ok || u.Op != token.MUL {
+					return false
+				}
+				fa, ok := u.X.(*ssa.FieldAddr)
+				return ok && fieldOfAddr(fa) == fErr
+			}
+			// every path of the step from its entry (helpers walked through): s.err is tracked along the path, so that
+			// `s.err = helper(); if s.err != nil` is a test of what the helper returned on this path
+			werr := walkPathsP(entryLoc(fn), nil, nil, 60000, func(path []ssa.Instruction, end pathEnd) {
+				if _, isRet := path[len(path)-1].(*ssa.Return); !isRet {
 					return
 				}
-				bad := ""
-				nFail := 0
-				walkPaths(after(call), nil, nil, 20000, func(path []ssa.Instruction, end pathEnd) {
-					if _, isRet := path[len(path)-1].(*ssa.Return); !isRet {
-						return
+				curAt := make([]ssa.Value, len(path)+1)
+				var cur ssa.Value
+				forPath(path, func(i int, x ssa.Instruction) {
+					curAt[i] = cur
+					if st, ok := x.(*ssa.Store); ok {
+						if fa, ok := st.Addr.(*ssa.FieldAddr); ok && fieldOfAddr(fa) == fErr {
+							cur = resolveOn(st.Val, i, path)
+						}
 					}
-					if !pathAsserts(path, func(c ssa.Value, truth bool) bool { return assertsNonNil(c, truth, ev) }) {
-						return
+				})
+				final := cur
+				for _, sx := range sites {
+					if sx.direct {
+						continue
+					}
+					at := -1
+					for i, x := range path {
+						if x == ssa.Instruction(sx.call) {
+							at = i
+						}
+					}
+					if at < 0 {
+						continue
+					}
+					about := func(c ssa.Value) (bool, bool) { // (is about this call's error, eq)
+						y, eq, ok := nilCompare(c)
+						if !ok || curEdgeIdx <= at {
+							return false, false
+						}
+						if isErrLoad(y) {
+							if t := curAt[curEdgeIdx]; t != nil && (t == sx.ev || resolvedEq(t, sx.ev)) {
+								return true, eq
+							}
+							return false, false
+						}
+						t := resolveOn(y, curEdgeIdx, path)
+						return t == sx.ev || resolvedEq(y, sx.ev), eq
+					}
+					if !pathAsserts(path, func(c ssa.Value, truth bool) bool { is, eq := about(c); return is && eq != truth }) {
+						continue
 					}
 					// one error variable shared by two calls (`if err == nil { _, err = Write() }; if err != nil`): the path that
 					// takes the failure edge of this call and then the nil edge of the merged variable does not exist
-					if pathAsserts(path, func(c ssa.Value, truth bool) bool { return assertsNil(c, truth, ev) }) {
-						return
+					if pathAsserts(path, func(c ssa.Value, truth bool) bool { is, eq := about(c); return is && eq == truth }) {
+						continue
 					}
-					nFail++
+					sx.nFail++
 					rec := false
-					forPath(path, func(i int, x ssa.Instruction) {
-						if st, ok := x.(*ssa.Store); ok {
-							if fa, ok := st.Addr.(*ssa.FieldAddr); ok && fieldOfAddr(fa) == fErr {
-								v := resolveOn(st.Val, i, path)
-								switch y := v.(type) {
-								case *ssa.MakeInterface:
-									rec = true
-								case *ssa.Call:
-									ck2 := w.callKey(y)
-									if ck2 == "errors.New" || ck2 == "fmt.Errorf" || alwaysNonNil(y.Call.StaticCallee(), 0) {
-										rec = true
-									}
-								}
-								if v == ev {
-									rec = true // the failed call's own error (non-nil on this path)
-								}
-							}
+					switch y := final.(type) {
+					case *ssa.MakeInterface:
+						rec = true
+					case *ssa.Call:
+						ck2 := w.callKey(y)
+						if ck2 == "errors.New" || ck2 == "fmt.Errorf" || alwaysNonNil(y.Call.StaticCallee(), 0) {
+							rec = true
 						}
-					})
-					if !rec {
-						bad = "the failure of " + ck + " is not recorded in s.err (return at " + w.ipos(path[len(path)-1]) + "): the negotiation goes on after a request that was never sent or a reply that was never read"
 					}
-				})
-				if nFail == 0 {
-					bad = "the error of " + ck + " is never tested"
+					if final != nil && (final == sx.ev || resolvedEq(final, sx.ev)) {
+						rec = true // the failed call's own error (non-nil on this path)
+					}
+					if !rec {
+						sx.bad = "the failure of " + sx.ck + " is not recorded in s.err (return at " + w.ipos(path[len(path)-1]) + "): the negotiation goes on after a request that was never sent or a reply that was never read"
+					}
 				}
-				r.Check(bad == "", "R2", cons, w.ipos(call), bad, "its failure edge stores a non-nil error into s.err")
 			})
+			for _, sx := range sites {
+				if sx.direct {
+					r.Ok("R2", sx.cons, "assigned to s.err")
+					continue
+				}
+				if werr != nil {
+					r.Undecided("R2", sx.cons, w.ipos(sx.call), werr.Error())
+					continue
+				}
+				bad := sx.bad
+				if sx.nFail == 0 {
+					bad = "the error of " + sx.ck + " is never tested"
+				}
+				r.Check(bad == "", "R2", sx.cons, w.ipos(sx.call), bad, "its failure edge stores a non-nil error into s.err")
+			}
 		}
 		if nSticky < 10 {
 			r.Undecided("R2", "steps#fallible-calls", "-", fmt.Sprintf("only %d marshal/write/read calls found in the step functions, 10 confirmed by hand", nSticky))
@@ -742,12 +800,16 @@ func c03Replies(w *World, r *Report, fErr *types.Var) {
 				return
 			}
 			// error recorded on the path (other than the read's own result)?
-			for _, in := range path {
+			other := false
+			forPath(path, func(i int, in ssa.Instruction) {
 				if st, ok := in.(*ssa.Store); ok {
-					if fa, ok := st.Addr.(*ssa.FieldAddr); ok && fieldOfAddr(fa) == fErr && st.Val != ev {
-						return
+					if fa, ok := st.Addr.(*ssa.FieldAddr); ok && fieldOfAddr(fa) == fErr && st.Val != ev && resolveOn(st.Val, i, path) != ev {
+						other = true
 					}
 				}
+			})
+			if other {
+				return
 			}
 			// the read's error is asserted nil
 			if !pathAsserts(path, func(c ssa.Value, truth bool) bool { return assertsNilR(c, truth, ev) }) {
